@@ -108,7 +108,7 @@ pub fn install_panic_hook() {
             // A panic raised inside std / a dependency on behalf of repository code is attributed to
             // the innermost repository frame (needs symbol names only, not debug info).
             let mut loc = loc;
-            if !loc.starts_with("/repo/") && !loc.contains("/verif/") {
+            if !loc.contains("/repo/") && !loc.contains("/verif/") {
                 let bt = std::backtrace::Backtrace::force_capture().to_string();
                 let mut harness_first = false;
                 for line in bt.lines() {
@@ -151,7 +151,7 @@ fn panic_site(loc: &str) -> String {
         return func.to_string();
     }
     let file = loc.rsplit_once(':').map(|(f, _)| f).unwrap_or(loc);
-    let file = file.strip_prefix("/repo/").unwrap_or(file);
+    let file = file.split_once("/repo/").map(|(_, f)| f).unwrap_or(file);
     file.to_string()
 }
 
